@@ -91,6 +91,15 @@ def redeclare(rng, r):
             p["size"] = E.sym(rng.choice(others))
         elif scope:
             a = E.sym(rng.choice(scope))
+            # prefer a parameter that the parent leaves UNLINKED while a sibling's parameter of the same name IS linked
+            # (it must be promoted to a top-level input of its own, not read as the sibling's)
+            par = parents.get(id(n))
+            if par is not None:
+                linked = {(t[0], t[1]) for _, ts in par["linked_params"] for t in ts}
+                special = [q for q in n["input_params"] if (n["name"], q) not in linked
+                           and any(sib is not n and q in sib["input_params"] and (sib["name"], q) in linked for sib in par["children"])]
+                if special and rng.random() < 0.8:
+                    a = E.sym(rng.choice(special))
             others = [x for x in scope if x != a[1]]
             two = E.op("add", E.op("mul", E.num(2), a), E.sym(rng.choice(others))) if others else E.op("mul", E.num(2), a)
             # (an asymmetric expression over two names of the scope: a mix-up of the two shows)
@@ -101,13 +110,45 @@ def redeclare(rng, r):
     return k
 
 
+def shared_name_partial_link(rng, r):
+    """Two sibling children share a parameter name; the parent links it for ONE of them only; the other one declares an
+    input port with a compound size over its own (unlinked, so promoted) parameter of that name."""
+    parents = [n for n, _ in H._nodes(r) if len(n["children"]) >= 2]
+    rng.shuffle(parents)
+    for par in parents:
+        kids = [c for c in par["children"] if any(p["direction"] in ("input", "through") for p in c["ports"])]
+        if not kids:
+            continue
+        c2 = rng.choice(kids)
+        c1 = rng.choice([c for c in par["children"] if c is not c2])
+        src_pool = list(par["input_params"]) + [l[0] for l in par["local_variables"]]
+        if not src_pool:
+            continue
+        q = rng.choice(["x", "y", "N"])
+        for c in (c1, c2):
+            if q not in c["input_params"]:
+                c["input_params"] = list(c["input_params"]) + [q]
+        # unlink c2.q (and every deeper link that targets it), link c1.q
+        for l in par["linked_params"]:
+            l[1] = [t for t in l[1] if not (t[0] == c2["name"] and t[1] == q)]
+        par["linked_params"] = [l for l in par["linked_params"] if l[1]]
+        if not any(t[0] == c1["name"] and t[1] == q for _, ts in par["linked_params"] for t in ts):
+            par["linked_params"].append([rng.choice(src_pool), [[c1["name"], q]]])
+        port = rng.choice([p for p in c2["ports"] if p["direction"] in ("input", "through")])
+        port["size"] = rng.choice([E.op("mul", E.num(2), E.sym(q)), E.op("add", E.sym(q), E.num(1))])
+        return True
+    return False
+
+
 def gen_cases(rng, n, max_depth):
     out = []
     while len(out) < n:
         r = H.gen_hierarchy(rng, max_depth=rng.randint(1, max_depth), p_rep=0.0, qubits=True, p_through=0.2)   # no repetitions: their own compile errors are not about sizes
         if H.count_nodes(r) > 9 or H.count_nodes(r) < 2:
             continue
-        if redeclare(rng, r) == 0:
+        if rng.random() < 0.12 and shared_name_partial_link(rng, r):
+            pass
+        elif redeclare(rng, r) == 0:
             continue
         out.append({"routine": r, "seed": rng.randint(0, 10**9), "n_assign": 4, "native": rng.random() < 0.5,
                     "lo": rng.choice([0, 1, 1])})
